@@ -497,6 +497,214 @@ fn check_deliver(c: &DeliverCase) -> Outcome {
         .class_if(c.raise_at.is_some() && !raised, "raise-point-beyond-run")
 }
 
+// ---------------------------------------------------------------------------------------------
+// (c) several trapped signals: one arriving while another action runs, two pending at one boundary,
+//     an action that leaves the enclosing function
+
+#[derive(Clone, Copy, Debug, PartialEq, Eq, Hash, Serialize, Deserialize)]
+pub enum TAct {
+    /// `mark T $?`
+    Plain,
+    /// `mark T $?; kill -s USR2 $$` - USR2 is delivered while the USR1 action runs
+    SendUsr2,
+    /// `mark T $?; return 7` - only ever triggered inside a function
+    Return,
+}
+
+#[derive(Clone, Debug, PartialEq, Eq, Hash, Serialize, Deserialize)]
+pub enum CStep {
+    St(u8),
+    Mark,
+    /// `kill -s USR1 $$`
+    Kill1,
+    /// `(kill -s USR1 $$; kill -s USR2 $$)`: both pending when the subshell has been awaited
+    KillBoth,
+    /// `(kill -s USR2 $$; kill -s USR1 $$)`
+    KillBothRev,
+}
+
+#[derive(Clone, Debug, PartialEq, Eq, Hash, Serialize, Deserialize)]
+pub struct ChainCase {
+    pub steps: Vec<CStep>,
+    pub t_action: TAct,
+    /// end the script with a self-kill instead of a final mark (actions must still run before exit)
+    pub last_kill: bool,
+    pub sched: Option<u64>,
+}
+
+fn check_chain(c: &ChainCase) -> Outcome {
+    let t_text = match c.t_action {
+        TAct::Plain => "mark T $?",
+        TAct::SendUsr2 => "mark T $?; kill -s USR2 $$",
+        TAct::Return => "mark T $?; return 7",
+    };
+    let mut script = format!("trap '{t_text}' USR1\ntrap 'mark U $?' USR2\n");
+    if c.t_action == TAct::Return {
+        script.push_str("h1() { kill -s USR1 $$; mark X; }\nh2() { (kill -s USR1 $$; kill -s USR2 $$); mark X; }\nh3() { (kill -s USR2 $$; kill -s USR1 $$); mark X; }\n");
+    }
+    // segments: expected (T count, U count) between consecutive numbered marks, and the `$?` the
+    // mark closing the segment must see (None = not asserted)
+    let mut segs: Vec<(u32, u32, Option<i32>)> = vec![];
+    let (mut t, mut u) = (0u32, 0u32);
+    let mut status: Option<i32> = Some(0);
+    let mut next = 1;
+    let mut deliveries = 0;
+    for s in &c.steps {
+        match s {
+            CStep::St(n) => {
+                script.push_str(&format!("st {n}\n"));
+                status = Some(*n as i32);
+            }
+            CStep::Mark => {
+                script.push_str(&format!("mark {next}\n"));
+                next += 1;
+                segs.push((t, u, status));
+                t = 0;
+                u = 0;
+                status = Some(0);
+            }
+            CStep::Kill1 => {
+                deliveries += 1;
+                t += 1;
+                match c.t_action {
+                    TAct::Plain => script.push_str("kill -s USR1 $$\n"),
+                    TAct::SendUsr2 => {
+                        script.push_str("kill -s USR1 $$\n");
+                        u += 1;
+                    }
+                    TAct::Return => script.push_str("h1\n"),
+                }
+                status = if c.t_action == TAct::Return { None } else { Some(0) };
+            }
+            CStep::KillBoth | CStep::KillBothRev => {
+                deliveries += 1;
+                t += 1;
+                u += 1;
+                let rev = matches!(s, CStep::KillBothRev);
+                match c.t_action {
+                    TAct::Plain => script.push_str(if rev { "(kill -s USR2 $$; kill -s USR1 $$)\n" } else { "(kill -s USR1 $$; kill -s USR2 $$)\n" }),
+                    // two USR2 deliveries could coalesce: send USR1 only, the action sends USR2
+                    TAct::SendUsr2 => script.push_str("(kill -s USR1 $$)\n"),
+                    TAct::Return => script.push_str(if rev { "h3\n" } else { "h2\n" }),
+                }
+                status = if c.t_action == TAct::Return { None } else { Some(0) };
+            }
+        }
+    }
+    let last_kill = c.last_kill && c.t_action != TAct::Return;
+    if last_kill {
+        script.push_str("kill -s USR1 $$\n");
+        deliveries += 1;
+        t += 1;
+        if c.t_action == TAct::SendUsr2 {
+            u += 1;
+        }
+        segs.push((t, u, None));
+    } else {
+        script.push_str(&format!("mark {next}\n"));
+        segs.push((t, u, status));
+    }
+    let mut s = vsys::Setup::script(&script);
+    if let Some(seed) = c.sched {
+        s.chooser = Chooser::Seeded(seed);
+        s.preempt = true;
+    }
+    let r = vsys::run(&s);
+    let ctx = |m: String| format!("{m}\nsched {:?}\nscript:\n{script}stderr: {:?}", c.sched, r.stderr);
+    if let Some(p) = &r.panic {
+        return Outcome::fail(ctx(format!("panic: {p}")));
+    }
+    if r.log.deadlock || !r.finished {
+        return Outcome::fail(ctx("shell did not finish".into()));
+    }
+    let got: Vec<(String, i32, i32)> = r
+        .main_trace()
+        .iter()
+        .map(|t| (t.args[0].clone(), t.status, t.args.get(1).and_then(|s| s.parse().ok()).unwrap_or(-1)))
+        .collect();
+    if got.iter().any(|g| g.0 == "X") {
+        return Outcome::fail(ctx(format!("a command after the delivery ran although the USR1 action returns from the function: {got:?}")));
+    }
+    // split the trace at numbered marks
+    let mut it = got.iter().peekable();
+    for (k, (et, eu, est)) in segs.iter().enumerate() {
+        let closing = (k + 1).to_string();
+        let is_last_open = last_kill && k + 1 == segs.len();
+        let mut seq: Vec<&(String, i32, i32)> = vec![];
+        let mut closed = false;
+        for g in it.by_ref() {
+            if g.0 == "T" || g.0 == "U" {
+                seq.push(g);
+            } else if g.0 == closing && !is_last_open {
+                if let Some(e) = est {
+                    if g.1 != *e {
+                        return Outcome::fail(ctx(format!("mark {closing} saw $?={}, expected {e} (trap actions must not change $?): {got:?}", g.1)));
+                    }
+                }
+                closed = true;
+                break;
+            } else {
+                return Outcome::fail(ctx(format!("unexpected trace entry {:?}: {got:?}", g.0)));
+            }
+        }
+        if !closed && !is_last_open {
+            return Outcome::fail(ctx(format!("mark {closing} never ran: {got:?}")));
+        }
+        let nt = seq.iter().filter(|g| g.0 == "T").count() as u32;
+        let nu = seq.iter().filter(|g| g.0 == "U").count() as u32;
+        if nt != *et || nu != *eu {
+            return Outcome::fail(ctx(format!(
+                "before {}: {et} USR1 and {eu} USR2 deliveries but the actions ran {nt} and {nu} times (each delivery must run its action exactly once at the next command boundary): {got:?}",
+                if is_last_open { "the end of the script".to_string() } else { format!("mark {closing}") }
+            )));
+        }
+        for g in &seq {
+            if g.1 != g.2 {
+                return Outcome::fail(ctx(format!("action {} printed $?={} but $? on entry was {}: {got:?}", g.0, g.2, g.1)));
+            }
+        }
+        if c.t_action == TAct::SendUsr2 {
+            // USR2 arrives while the USR1 action runs: its action is due at the boundary right after it
+            for w in seq.chunks(2) {
+                if !(w.len() == 2 && w[0].0 == "T" && w[1].0 == "U") {
+                    return Outcome::fail(ctx(format!("the USR2 action must follow the USR1 action that sent it: {got:?}")));
+                }
+            }
+        }
+        if c.t_action != TAct::Return {
+            // nothing between the kill and the action changes `$?` (kill / the subshell end with 0)
+            for g in &seq {
+                if g.1 != 0 {
+                    return Outcome::fail(ctx(format!("action {} saw $?={}, expected 0 (status of the command that just finished): {got:?}", g.0, g.1)));
+                }
+            }
+        }
+    }
+    if it.next().is_some() {
+        return Outcome::fail(ctx(format!("trace continues after the last expected entry: {got:?}")));
+    }
+    if c.t_action != TAct::Return && r.status != 0 {
+        return Outcome::fail(ctx(format!("final status {} expected 0", r.status)));
+    }
+    let both = c.steps.iter().any(|s| matches!(s, CStep::KillBoth | CStep::KillBothRev));
+    Outcome::pass(deliveries > 0)
+        .class(match c.t_action { TAct::Plain => "chain:plain", TAct::SendUsr2 => "chain:signal-during-action", TAct::Return => "chain:action-returns" })
+        .class_if(both, "two-signals-pending-at-one-boundary")
+        .class_if(last_kill, "delivery-by-last-command")
+}
+
+pub static CHAIN: Driver<ChainCase> = Driver::new("C11", "chain", check_chain);
+
+fn arb_cstep() -> impl Strategy<Value = CStep> {
+    prop_oneof![
+        2 => (0u8..4).prop_map(CStep::St),
+        3 => Just(CStep::Mark),
+        2 => Just(CStep::Kill1),
+        2 => Just(CStep::KillBoth),
+        1 => Just(CStep::KillBothRev),
+    ]
+}
+
 pub static DELIVER: Driver<DeliverCase> = Driver::new("C11", "delivery", check_deliver);
 
 fn arb_step() -> impl Strategy<Value = Step> {
@@ -561,12 +769,24 @@ pub fn run(ctx: &Ctx, st: &mut Stats) {
         (prop::collection::vec(arb_step(), 2..7), prop::option::weighted(0.7, 0u32..16), prop::option::weighted(0.5, any::<u64>()))
             .prop_map(|(steps, raise_at, sched)| DeliverCase { steps, raise_at, sched })
     });
+    // (c) chains
+    let cases = ctx.tier.pick(30_000, 1_500_000);
+    CHAIN.run_random(ctx, st, cases, || {
+        (
+            prop::collection::vec(arb_cstep(), 1..7),
+            prop::sample::select(vec![TAct::Plain, TAct::SendUsr2, TAct::Return]),
+            prop::bool::weighted(0.3),
+            prop::option::weighted(0.5, any::<u64>()),
+        )
+            .prop_map(|(steps, t_action, last_kill, sched)| ChainCase { steps, t_action, last_kill, sched })
+    });
 }
 
 pub fn replay(driver: &str, case: &serde_json::Value) -> Result<(Outcome, Option<&'static str>), String> {
     match driver {
         "history" => HIST.replay_known(case),
         "delivery" => DELIVER.replay_known(case),
+        "chain" => CHAIN.replay_known(case),
         _ => Err(format!("unknown driver {driver}")),
     }
 }
